@@ -484,8 +484,8 @@ LEG = {
 }
 
 
-def legacy_recording(c, name, adapt, N=6, Nb=2):
-    if adapt: N = 20
+def legacy_recording(c, name, adapt, N=6, Nb=2, short=False):
+    if adapt and not short: N = 20
     seed = int(c.real('seed', lo=0, hi=10 ** 6)); np.random.seed(seed)
     log = []
     s = LEG[name](cb=lambda x, i: log.append((np.array(x, dtype=float).copy(), i)))
@@ -547,10 +547,16 @@ def jobs(tier):
         for adapt in (False, True):
             J.append(Job(f'legacy.{name}:{"sample_adapt" if adapt else "sample"}:recording_and_callback', lambda c, n=name, a=adapt: legacy_recording(c, n, a), 'B',
                          [f'{LS}:Sampler.sample', f'{LS}:Sampler.sample_adapt', f'{LS}:Sampler._create_Sample_object'], nnum=2))
+    for name in ('MH', 'CWMH', 'pCN'):          # adaptive runs shorter than ten states (the adaptation interval is a tenth of the run)
+        J.append(Job(f'legacy.{name}:sample_adapt:recording_and_callback:short_run', lambda c, n=name: legacy_recording(c, n, True, 6, 2, True), 'B',
+                     [f'{LS}:Sampler.sample_adapt'], nnum=2))
     for adapt in (False, True):
         J.append(Job(f'legacy.Sampler.{"sample_adapt" if adapt else "sample"}:wrapper:arbitrary_kernel_loop:symbolic_N_Nb', lambda c, a=adapt: legacy_wrapper(c, a), 'Pinf',
                      [f'{LS}:Sampler.sample', f'{LS}:Sampler.sample_adapt', f'{LS}:Sampler._create_Sample_object'], num=False))
     # "for both Gibbs samplers": sample(N); sample(M) == sample(N+M), with and without warm-up, values as terms (contracts shared with C09)
+    # "all ... burn-in and thinning values": removing burn-in / thinning keeps exactly the states Nb, Nb+Nt, ... (symbolic N, Nb, Nt; contracts shared with C19)
+    from contracts import C19 as _c19
+    J += [j for j in _c19.jobs(tier) if j.id in ('Samples.burnthin:symbolic_N_Nb_Nt', 'JointSamples.burnthin:symbolic_N_Nb_Nt', 'Samples.burnthin:values:vector')]
     from contracts import C09 as _c09
     J += [j for j in _c09.jobs(tier) if j.id in ('HybridGibbs:continuation_and_warmup', 'legacy.Gibbs:stored_columns_and_continuation')]
     return J
